@@ -12,6 +12,7 @@ import (
 	"encoding/hex"
 	"errors"
 	"fmt"
+	"io"
 	"os"
 	"strings"
 
@@ -39,6 +40,22 @@ type TokenSpec struct {
 	Seal      bool
 	Base      []string // WithSymbols: a caller-supplied base table shared out of band
 	ViaNew    bool     // authority through NewBlockBuilder + biscuit.New instead of the Builder
+	Short     bool     // the random source delivers its bytes a few at a time (short reads)
+}
+
+// shortRand: the same fresh bytes as detRand, delivered one to three per Read — what a
+// pipe, a socket or a hardware source may do; readers are expected to use io.ReadFull.
+type shortRand struct{ r *Rng }
+
+func (d *shortRand) Read(p []byte) (int, error) {
+	n := 1 + d.r.Intn(3)
+	if n > len(p) {
+		n = len(p)
+	}
+	for i := 0; i < n; i++ {
+		p[i] = byte(d.r.U64())
+	}
+	return n, nil
 }
 
 func symTable(base []string) *datalog.SymbolTable {
@@ -111,7 +128,10 @@ func allNames(blocks []Block) []string {
 
 func buildTokenSpec(spec TokenSpec, rng *Rng) (*biscuit.Biscuit, error) {
 	_, priv := rootKeys()
-	rd := &detRand{rng}
+	var rd io.Reader = &detRand{rng}
+	if spec.Short {
+		rd = &shortRand{rng}
+	}
 	opts := []interface{}{}
 	_ = opts
 	var b biscuit.Builder
@@ -592,7 +612,7 @@ func (g *scenGen) richBlock() Block {
 }
 
 func runC07(c *Ctx) {
-	c.Rule = "tokens built through the library (Builder, or NewBlockBuilder + New over the caller's base table) from generated content (every term type, nested expressions over all operators, sets, default symbols, fresh symbols, symbols shared across blocks, 0-40 fresh symbols per block, contexts, 0-3 later blocks, sealed or not, root key ids absent/0/1/7/2^31/2^32-1) are serialized; the Lean wire model decodes the bytes with the published schema and symbol rules and must find block for block the supplied content, version 3, the root key id, the revocation ids; re-encoding the decoded content must reproduce the block bytes and the envelope bytes. Witness search on the library: Unmarshal (package-level, with the caller's base table, and through one Unmarshaler value reused for all tokens) then String / RevocationIds / RootKeyID / Serialize / an Authorize panel must equal the original's; re-signed blocks with versions 0,1,2,4,2^32-1 must be rejected. Non-trivial = at least two blocks or at least one expression; distinct = distinct serialized content encodings."
+	c.Rule = "tokens built through the library (Builder, or NewBlockBuilder + New over the caller's base table) from generated content (every term type, nested expressions over all operators, sets, default symbols, fresh symbols, symbols shared across blocks, 0-40 fresh symbols per block, contexts, 0-3 later blocks, sealed or not, two children appended to the same parent and serialized afterwards, root key ids absent/0/1/7/2^31/2^32-1) are serialized; the Lean wire model decodes the bytes with the published schema and symbol rules and must find block for block the supplied content, version 3, the root key id, the revocation ids; re-encoding the decoded content must reproduce the block bytes and the envelope bytes. Witness search on the library: Unmarshal (package-level, with the caller's base table, and through one Unmarshaler value reused for all tokens) then String / RevocationIds / RootKeyID / Serialize / an Authorize panel must equal the original's; re-signed blocks with versions 0,1,2,4,2^32-1 must be rejected. Non-trivial = at least two blocks or at least one expression; distinct = distinct serialized content encodings."
 	r := NewRng(c.Seed)
 	n := 1500
 	if c.Thorough {
@@ -677,6 +697,37 @@ func runC07(c *Ctx) {
 			bb := tok.CreateBlock()
 			bb.AddFact(biscuit.Fact{Predicate: Pred{Name: "abandoned", Terms: []Term{S(fmt.Sprintf("left-behind-block-%d", i))}}.ToBiscuit()})
 			c.Count("abandoned-block-builder")
+		}
+		if !spec.Seal && r.Chance(1, 5) {
+			// two holders attenuate the same token (append, append on the same parent, at every
+			// chain length): the bytes of the first child, serialized after the second was made,
+			// must carry the parent's blocks and the first holder's block — by the independent decoder
+			var kids []*biscuit.Biscuit
+			var kidBlocks []Block
+			for k := 0; k < 2; k++ {
+				blk := g.richBlock()
+				bb := tok.CreateBlock()
+				if err := fillBlockBuilder(bb, blk); err != nil {
+					break
+				}
+				kid, err := tok.Append(&detRand{r.Fork()}, bb.Build())
+				if err != nil {
+					break
+				}
+				kids, kidBlocks = append(kids, kid), append(kidBlocks, blk)
+			}
+			if len(kids) == 2 {
+				for k, kid := range kids {
+					if d, err := kid.Serialize(); err == nil {
+						ks := spec
+						ks.Blocks = append(append([]Block{}, spec.Blocks...), kidBlocks[k])
+						sxK := wireCaseSx(d, ks)
+						resK := execCase("WIRE", sxK)
+						c.Case("WIRE", c.NewID("fork"), sxK, resK)
+						c.Count("fork-child:" + strings.SplitN(resK, " ", 2)[0])
+					}
+				}
+			}
 		}
 		if !strings.HasPrefix(res, "ok ") || strings.Contains(res, "differ") {
 			c.Violate("C07/library-roundtrip", "Unmarshal(Serialize(t)) does not reproduce the token: "+trunc(res, 200), map[string]interface{}{"verb": "WIRE", "case": sx, "go": res})
